@@ -132,7 +132,7 @@ Qed.
    file is not reported.  Counterexample below: changes = [q; p], fs = [p's
    file, missing on disk], the run reports [E_ORACLE_MISS] only. *)
 Definition cx_f : rfile :=
-  {| rf_path := T "p.py"; rf_text := []; rf_spans := []; rf_exists := false;
+  {| rf_path := T "p.py"; rf_text := []; rf_spans := []; rf_exists := false; rf_readable := false;
      rf_allow := true; rf_ignore := false |}.
 
 Example diff_error_reported_counterexample :
@@ -234,12 +234,12 @@ Qed.
 
 (* what the two error classes of parse_one mean *)
 Lemma parse_one_missing ext_map f all lcs g :
-  grammar_of ext_table ext_map (rf_path f) = Some g -> rf_exists f = false ->
+  grammar_of ext_table ext_map (rf_path f) = Some g -> rf_readable f = false ->
   parse_one ext_map f all lcs = Some (Err E_READ).
 Proof. intros Hg He. unfold parse_one. rewrite Hg, He. reflexivity. Qed.
 
 Lemma parse_one_parse_error ext_map f all lcs g e :
-  grammar_of ext_table ext_map (rf_path f) = Some g -> rf_exists f = true ->
+  grammar_of ext_table ext_map (rf_path f) = Some g -> rf_readable f = true ->
   parse_file (rf_text f) (rf_spans f) = Err e ->
   parse_one ext_map f all lcs = Some (Err e).
 Proof. intros Hg He Hp. unfold parse_one. rewrite Hg, He, Hp. reflexivity. Qed.
